@@ -13,6 +13,7 @@ import (
 	"fmt"
 	"io"
 	"net/http"
+	"net/url"
 	"reflect"
 	"runtime"
 	"runtime/debug"
@@ -89,6 +90,7 @@ type Script struct {
 	Default  bool            `json:"default"`  // return the operation's default response (the implementer with a Code field)
 	Unique   int             `json:"unique"`   // > 0: overwrite the response's leaves with values unique to this tag
 	Yield    bool            `json:"yield"`    // call runtime.Gosched() at every call-back (C20)
+	ByStatus bool            `json:"byStatus"` // choose among the implementers ordered by the status each writes (ProbeStatuses), not by type name
 }
 
 type caseCtx struct {
@@ -396,6 +398,9 @@ func buildResponse(reg Registry, rec *Recorder, op OpInfo, cc *caseCtx) reflect.
 		}
 		name = impl[0]
 		if cc.script.Random {
+			if cc.script.ByStatus {
+				impl = byProbedStatus(op.ID(), impl)
+			}
 			name = impl[int(uint64(cc.script.Seed)%uint64(len(impl)))]
 		}
 	}
@@ -468,3 +473,59 @@ func buildResponse(reg Registry, rec *Recorder, op OpInfo, cc *caseCtx) reflect.
 }
 
 func b64(bs []byte) string { return base64.StdEncoding.EncodeToString(bs) }
+
+// statusProbe: per operation, the status each response type writes (learned by ProbeStatuses through the generated
+// server itself).  Two packages generated from specifications that differ only in how they refer to things name
+// their response types differently; ordering the implementers by what they write makes "the k-th response" the same
+// response in both.
+var statusProbe = map[string]map[string]int{}
+
+func byProbedStatus(opID string, impl []string) []string {
+	// one implementer per distinct status (an alias and its target are two names of one response), ordered by status
+	p := statusProbe[opID]
+	first := map[int]string{}
+	var sts []int
+	for _, n := range impl {
+		if _, ok := first[p[n]]; !ok {
+			first[p[n]] = n
+			sts = append(sts, p[n])
+		}
+	}
+	sort.Ints(sts)
+	out := make([]string, 0, len(sts))
+	for _, st := range sts {
+		out = append(out, first[st])
+	}
+	return out
+}
+
+// ProbeStatuses serves one synthetic request per (operation, implementer) whose handler answers with the zero value of
+// that type, and records the status written.
+func ProbeStatuses(reg Registry, api http.Handler, base string, rec *Recorder) {
+	ops, _ := Ops(reg)
+	for _, op := range ops {
+		id := op.ID()
+		method, tmpl, _ := strings.Cut(id, " ")
+		path := base
+		for _, seg := range strings.Split(strings.TrimPrefix(tmpl, "/"), "/") {
+			if strings.HasPrefix(seg, "{") {
+				seg = "x"
+			}
+			path += "/" + seg
+		}
+		statusProbe[id] = map[string]int{}
+		for _, n := range Implementers(reg, op.RespType) {
+			cw := &countingWriter{hdr: http.Header{}}
+			ctx := context.WithValue(context.Background(), keyCase, &caseCtx{id: "probe", script: Script{Resp: n, Code: 999}})
+			rq := (&http.Request{Method: method, URL: &url.URL{Path: path}, Proto: "HTTP/1.1", ProtoMajor: 1, ProtoMinor: 1, Header: http.Header{}, Body: http.NoBody, Host: "example.test"}).WithContext(ctx)
+			func() {
+				defer func() { recover() }()
+				api.ServeHTTP(cw, rq)
+			}()
+			statusProbe[id][n] = cw.status
+		}
+		if rec != nil {
+			rec.Emit(Event{"ev": "Probe", "op": id, "path": path, "statuses": statusProbe[id]})
+		}
+	}
+}
